@@ -101,7 +101,11 @@ where
         format!("fuzz_{}", target),
         json!({"runs_requested": runs, "seed": seed, "executed_units": stat("number_of_executed_units"), "new_units_added": stat("new_units_added"), "exit_code": out.status.code(), "seed_corpus_files": sorted_files(&seed_dir).len()}),
     );
-    let artifacts = sorted_files(&arts);
+    // libFuzzer also drops informational `slow-unit-*` files there; only crash-class artifacts count
+    let artifacts: Vec<PathBuf> = sorted_files(&arts)
+        .into_iter()
+        .filter(|p| p.file_name().and_then(|n| n.to_str()).map(|n| ["crash-", "oom-", "timeout-", "leak-"].iter().any(|pre| n.starts_with(pre))).unwrap_or(false))
+        .collect();
     if out.status.success() && artifacts.is_empty() {
         return;
     }
